@@ -5,6 +5,7 @@ conversions, logging and syntactic wrappers. Rules compare terms with hand-writt
 tables; nothing here looks at source text or line numbers.
 """
 import re
+import json
 
 LOG_MACROS = {"trace", "debug", "info", "warn", "error", "log", "println", "eprintln", "print", "eprint"}
 
@@ -676,3 +677,99 @@ def _nest(node):
         else:
             arms.append(a)
     return dict(node, arms=arms)
+
+
+def _pure_operand(n):
+    n = peel(n) if isinstance(n, dict) else n
+    while isinstance(n, dict) and (n.get('k') == 'AddrOf' or (n.get('k') == 'Unary' and n.get('op') == 'Deref') or n.get('k') == 'Field'):
+        n = peel(n['e'])
+    return isinstance(n, dict) and n.get('k') in ('Local', 'Def', 'Lit')
+
+
+def _wild(p):
+    return p.get('k') == 'Wild'
+
+
+def _ctor_key(p):
+    """key of a binder-free constructor pattern whose sub-patterns are all wildcards (so equal key <=> same set of values)"""
+    k = p.get('k')
+    if k in ('PRef', 'PDeref', 'PBox'):
+        return _ctor_key(p['p'])
+    if k == 'PPath':
+        return ('c', (p.get('res') or {}).get('path'))
+    if k == 'PTupleStruct' and all(_wild(x) for x in p.get('pats', [])):
+        return ('c', (p.get('res') or {}).get('path'))
+    if k == 'PStruct' and all(_wild(x[1]) for x in p.get('fields', [])):
+        return ('c', (p.get('res') or {}).get('path'))
+    if k in ('PLit', 'Lit', 'PExpr'):
+        return ('l', json.dumps(p, sort_keys=True))
+    return None
+
+
+_TNEST = {}
+
+
+def nest_tuple_match(node):
+    """`match (a, b) { (P1, Q1) => x, (P1, Q2) => y, (P2, _) => z, _ => w }` read as the decision tree a compiler builds:
+    `match a { P1 => match b { Q1 => x, Q2 => y, _ => w }, P2 => match b { _ => z }, _ => w }` -- the first column's
+    constructors are pairwise disjoint, so first-match order within each group is kept. Only for side-effect-free operands."""
+    if node.get('k') != 'Match' or node.get('src') != 'Normal':
+        return node
+    key = id(node)
+    if key in _TNEST and _TNEST[key][0] is node:
+        return _TNEST[key][1]
+    out = _nest_tuple(node)
+    _TNEST[key] = (node, out)
+    return out
+
+
+def _nest_tuple(node):
+    sc = peel(node['scrut']) if isinstance(node.get('scrut'), dict) else {}
+    if sc.get('k') != 'Tup' or len(sc.get('es', [])) < 2 or not all(_pure_operand(e) for e in sc['es']):
+        return node
+    n = len(sc['es'])
+    rows = []
+    for a in node['arms']:
+        pt = a['pat']
+        while pt.get('k') in ('PRef', 'PDeref'):
+            pt = pt['p']
+        if pt.get('k') == 'PTuple' and len(pt.get('pats', [])) == n and pt.get('dd') is None:
+            cols = pt['pats']
+        elif _wild(pt):
+            cols = [{'k': 'Wild'}] * n
+        else:
+            return node
+        rows.append((cols, a))
+    keys = []
+    for cols, a in rows:
+        c0 = cols[0]
+        if _wild(c0):
+            continue
+        k0 = _ctor_key(c0)
+        if k0 is None:
+            return node
+        if k0 not in [k for k, _ in keys]:
+            keys.append((k0, c0))
+    if not keys:
+        return node
+    sp = node.get('sp') or ''
+
+    def inner(sel, tag):
+        arms = []
+        for cols, a in sel:
+            rest = cols[1:]
+            pat = rest[0] if len(rest) == 1 else {'k': 'PTuple', 'pats': list(rest), 'dd': None}
+            arms.append(dict(a, pat=pat))
+        es = sc['es'][1:]
+        scrut = es[0] if len(es) == 1 else dict(sc, es=list(es), sp=(sc.get('sp') or '') + '#' + tag)
+        return {'k': 'Match', 'src': 'Normal', 'scrut': scrut, 'ty': node.get('ty'), 'sp': '%s#t%s' % (sp, tag), 'tail_of': sp, 'arms': arms}
+
+    arms = []
+    for i, (k0, c0) in enumerate(keys):
+        sel = [(cols, a) for cols, a in rows if _wild(cols[0]) or _ctor_key(cols[0]) == k0]
+        first = sel[0][1]
+        arms.append({'pat': c0, 'guard': None, 'body': inner(sel, str(i)), 'sp': (first.get('sp') or sp) + '#o%d' % i})
+    wild = [(cols, a) for cols, a in rows if _wild(cols[0])]
+    if wild:
+        arms.append({'pat': {'k': 'Wild'}, 'guard': None, 'body': inner(wild, 'w'), 'sp': sp + '#ow'})
+    return dict(node, scrut=sc['es'][0], arms=arms)
